@@ -203,6 +203,20 @@ def judge(family, case, rec):
         x = f(1000)
         if x.shape != (1000,) or not (x == 0).all():
             rec.violation("C20:zero-not-zero", family, case, "noise.zero()(n) is not identically 0")
+        # the caller adds something to the array he was given (eps += ...): later draws - of this callable and of a fresh one - stay 0
+        for n in (1000, 7, 1):
+            y = f(n)
+            try:
+                y += 3.5
+            except Exception:
+                pass
+            for g in (f, noise.zero()):
+                z = g(n)
+                rec.count("history:returned-array-overwritten")
+                if z.shape != (n,) or not (z == 0).all():
+                    rec.violation("C20:zero-not-zero-after-caller-overwrote-result", family, case,
+                                  "noise.zero()(%d) is not identically 0 after the caller modified an earlier result in place" % n)
+                    return
         return
     cdf, mu, var, kurt, (lo, hi) = _law(kind, params)
     # many small calls: the draws of one call must be independent of one another and have the full variance whatever n is
@@ -264,6 +278,20 @@ def judge(family, case, rec):
         rec.count("repro:seeded-equal")
     else:
         rec.violation("C20:%s-not-reproducible-after-seeding" % kind, family, case, "np.random.seed(s); f(n) twice gives different draws")
+    # the caller overwrites the arrays he was given; the same seeded call must still return the same draws
+    xc = np.array(x, copy=True)
+    try:
+        x2[...] = -1.0
+        x[...] = -2.0
+    except Exception:
+        pass
+    np.random.seed(s)
+    x3 = f(N)
+    rec.count("history:returned-array-overwritten")
+    if not np.array_equal(x3, xc):
+        rec.violation("C20:%s-depends-on-overwritten-earlier-result" % kind, family, case,
+                      "np.random.seed(s); f(n) differs after the caller overwrote the arrays returned by earlier calls")
+    x = xc
     a, b = f(50), f(50)
     if np.array_equal(a, b):
         rec.violation("C20:%s-unseeded-calls-identical" % kind, family, case, "two consecutive unseeded calls returned identical draws")
